@@ -83,6 +83,33 @@ def constant_locals(F, body):
     return out
 
 
+def defined_locals(F, body, base=None):
+    """Immutable `let`s of the function's top-level block (outside loops) expanded to expressions over the parameters (and the given base
+    values): `let two_tol = two * tol` -> 2·tol.  Only lets whose initialiser involves no user call and no mutable local are expanded."""
+    out = dict(base or {})
+    muts = set()
+    for n in walk(body["body"]):
+        if n.get("k") == "LetS" and n["pat"].get("k") == "Bind" and "Mut)" in n["pat"].get("mode", ""):
+            muts.add(n["pat"]["name"])
+        if n.get("k") in ("Assign", "AssignOp") and peel(n["l"]).get("k") == "Local":
+            muts.add(peel(n["l"])["name"])
+    for st in body["body"].get("stmts", []):
+        if st.get("k") != "LetS" or st["pat"].get("k") != "Bind" or "init" not in st or st["pat"]["name"] in muts:
+            continue
+        init = st["init"]
+        if any(x.get("k") == "Call" and "ovl" in x for x in walk(init)) or any(x.get("k") == "Local" and x["name"] in muts for x in walk(init)):
+            continue
+        try:
+            it = guards.GInterp(F, body, lambda c: True)
+            preset_all(body, out)(it)
+            v = it.ev(init)
+        except Exception:
+            continue
+        if hasattr(v, "free_symbols") and not isinstance(v, sp.logic.boolalg.Boolean):
+            out[st["pat"]["name"]] = v
+    return out
+
+
 def fvalue_locals(body):
     """Names of locals that hold values of the user function (dataflow fixpoint)."""
     fv = set()
@@ -275,6 +302,7 @@ def check_success_criterion(F, run, name, b):
     values = {nm: (sp.Symbol("fv_" + nm, real=True) if nm in fv else sym.S(nm)) for nm in binds}
     values["tol"] = tolsym
     values.update(constant_locals(F, b))
+    values.update({k: v for k, v in defined_locals(F, b, {"tol": tolsym, **constant_locals(F, b)}).items() if k not in fv})
     pm = cfg.parent_map(b["body"])
     oks = []
     for n in walk(b["body"], into_closures=False):
@@ -692,10 +720,29 @@ def check_itp_orientation(F, run, b, loop):
     run.floor("R7.10", dp, "iterations with a recorded radius", n_r, 1, F.loc(b))
 
 
+def formula_to_sympy(f, ev):
+    """cfg guard formula -> sympy, evaluating literal nodes with `ev`."""
+    if f == cfg.TRUE:
+        return sp.true
+    if f == cfg.FALSE:
+        return sp.false
+    if f[0] == "lit":
+        v = ev(f[1])
+        return v if f[2] else sp.Not(v)
+    if f[0] == "and":
+        return sp.And(*[formula_to_sympy(x, ev) for x in f[1]])
+    if f[0] == "or":
+        return sp.Or(*[formula_to_sympy(x, ev) for x in f[1]])
+    if f[0] == "not":
+        return sp.Not(formula_to_sympy(f[1], ev))
+    raise sym.Unsupported(None, "guard formula %r" % (f[0],))
+
+
 def check_brent_return(F, run, b):
-    """R7.11 — Brent: the point handed back is the one the exit condition speaks about.  For every `Ok(x)` and every satisfiable disjunct of its
-    full condition (negated loop condition ∧ the selecting branch): either the disjunct bounds the *cached value of x itself* by the tolerance,
-    or x is an end of the bracket and the disjunct bounds the bracket width by the tolerance."""
+    """R7.11 — Brent: the point handed back is the one the exit condition speaks about.  For every `Ok(x)` (inside or after the loop) and every
+    satisfiable disjunct of the condition under which it is reached (enclosing branches, earlier early exits not taken, and the negated loop
+    condition when it follows the loop): either the disjunct bounds the *cached value of x itself* by the tolerance, or x is an end of the
+    bracket and the disjunct bounds the bracket width by the tolerance."""
     from bsa import logic
     dp = FNS["brent"]
     cache = {"left": "f_left", "right": "f_right", "s": "f_s", "c": "f_c"}
@@ -710,6 +757,7 @@ def check_brent_return(F, run, b):
     if len(loops) != 1:
         run.broken("R7.11", dp, "loop", F.loc(b), "expected one main loop")
         return
+    loop = loops[0]
 
     def ev(node):
         it = guards.GInterp(F, b, lambda c: True)
@@ -719,8 +767,9 @@ def check_brent_return(F, run, b):
     for okn in walk(b["body"], into_closures=False):
         if not (okn.get("k") == "Call" and (callee(okn) or "").endswith("::Ok") and okn.get("args")):
             continue
-        if any(a is loops[0] for a in cfg.ancestors(pm, okn)) or not cfg.before(b["body"], loops[0], okn):
-            continue
+        inside = any(a is loop for a in cfg.ancestors(pm, okn))
+        if not inside and not cfg.before(b["body"], loop, okn):
+            continue        # an early Ok before the iteration (none today) is R7.3's business
         arg = peel(okn["args"][0])
         name = arg.get("name") if arg.get("k") == "Local" else None
         n_ok += 1
@@ -728,18 +777,16 @@ def check_brent_return(F, run, b):
             run.fail("R7.11", dp, "returned:" + pp(okn)[:30], F.loc(b, okn), "Brent returns %s, which is not one of the tracked abscissae" % pp(arg))
             continue
         try:
-            conds = [sp.Not(ev(loops[0]["c"]))]
-            cur = okn
-            while id(cur) in pm:
-                par = pm[id(cur)]
-                if par.get("k") == "If" and cur is not par.get("c"):
-                    c = ev(par["c"])
-                    conds.append(c if cur is par.get("t") else sp.Not(c))
-                cur = par
+            cond = formula_to_sympy(cfg.guards_of(b["body"], okn), ev)
+            if inside:
+                # the loop condition held at the head of this iteration; what matters is the branch that returns
+                pass
+            else:
+                cond = sp.And(cond, sp.Not(ev(loop["c"])))
         except sym.Unsupported as u:
             run.broken("R7.11", dp, "condition:" + name, F.loc(b, okn), str(u))
             continue
-        d = sp.to_dnf(sp.to_nnf(sp.And(*conds), simplify=False), simplify=False)
+        d = sp.to_dnf(sp.to_nnf(cond, simplify=False), simplify=False)
         own = sp.Symbol("fv_" + cache[name], real=True)
         width_ok = name in ("left", "right")
         for dj in (d.args if isinstance(d, sp.Or) else (d,)):
@@ -756,7 +803,7 @@ def check_brent_return(F, run, b):
             run.check(good, "R7.11", dp, "returned-point-is-the-converged-one:%s:%s" % (name, dkey_(dj)), F.loc(b, okn),
                       "Ok(%s) can be returned when `%s`: this bounds neither f(%s) nor (for an end point) the bracket width — the tolerance was met at another point"
                       % (name, dj, name), sample="brent: Ok(%s) under %s" % (name, str(dj)[:60]))
-    run.floor("R7.11", dp, "Ok returns after the loop", n_ok, 2, F.loc(b))
+    run.floor("R7.11", dp, "Ok returns of the iteration", n_ok, 2, F.loc(b))
 
 
 def dkey_(dj):
